@@ -86,6 +86,7 @@ def with_opts(scen, rng, aux_ok=True):
             aux = "param"
         o["aux"] = aux
         o["shard"] = bool(aux in ("obs", "both") and (k // 5) % 2)      # the non-jitted loop (obs_batch_sharding given)
+        o["partial"] = bool((k // 2) % 2) and C["fault"] >= 0 and C["origin"] != "loss"      # NaN in ONE entry of a two-entry leaf
         if C["vkind"] == "builtin":
             o["bval"] = [2, 4, o["npts"] if o["npts"] in (1, 2, 4, 8) else 2][k % 3]
             o["vobs"] = bool(k % 2) and o["bval"] <= 4
@@ -146,7 +147,8 @@ def run(pid, tier, seed, *, select, extra_cases, rule, assumptions, level="model
                      scripted=sum(1 for r in recs if r["C"]["vkind"] == "script"), builtin=sum(1 for r in recs if r["C"]["vkind"] == "builtin"),
                      resumed=sum(1 for r in recs if r["case"].get("resume") is not None), non_decoded_optimizers=sum(1 for r in recs if not r["decoded"]),
                      with_aux=sum(1 for r in recs if r["case"]["opt"].get("aux", "none") != "none"),
-                     sharded_loop=sum(1 for r in recs if r["case"]["opt"].get("shard")))
+                     sharded_loop=sum(1 for r in recs if r["case"]["opt"].get("shard")),
+                     partial_leaf_faults=sum(1 for r in recs if r["case"]["opt"].get("partial")))
         for k in (needs or []):
             if not stats.get(k):
                 raise core.MachineryError(f"vacuous: no scenario of kind '{k}' was replayed")
